@@ -111,6 +111,9 @@ class Run:
         self.visits = {}
         self.max_steps = max_steps
         self.steps = 0
+        self.last_truth = {}   # block index -> truth value of its branch condition at its last evaluation
+        self.arrivals = []     # (block, context, predecessor block, frozen truth values of the deciding conditions)
+        self.idoms = None      # immediate-dominator table (set by the caller for the control-dependence audit)
         self.decl_types = {}
         for d in pre[3][1:]:
             self.decl_types[key(d[0])] = d[1]
@@ -221,9 +224,34 @@ class Run:
             pass
         return self
 
+    def deciders(self, j):
+        """Blocks whose branch can decide along which edge block j is entered: the blocks ending in a branch on
+        the dominator-tree paths from the predecessors of j up to and including its immediate dominator
+        (the rule of Spec.DegSem.decides, written again here to be audited against the concrete runs)."""
+        preds = [int(q) for q in self.pre_blocks[j][4]]
+        if len(preds) < 2 or self.idoms is None:
+            return []
+        stop = self.idoms[j]
+        out = set()
+        for q in preds:
+            cur = q
+            for _ in range(len(self.pre_blocks) + 1):
+                sts = self.pre_blocks[cur][3]
+                if sts and sts[-1][0] == "if":
+                    out.add(cur)
+                if cur == stop or self.idoms[cur] is None:
+                    break
+                cur = self.idoms[cur]
+        return sorted(out)
+
     def _run(self):
         b = 0
+        prev = None
         while True:
+            if prev is not None and self.idoms is not None and len(self.pre_blocks[b][4]) >= 2:
+                ctx = (len(self.hdr_seq), sum(1 for a in self.arrivals if a[0] == b and a[1][0] == len(self.hdr_seq)))
+                self.arrivals.append((b, ctx, prev, tuple((d, self.last_truth.get(d)) for d in self.deciders(b))))
+            prev = b
             self.path.append(b)
             if b in self.headers:
                 self.hdr_seq.append(b)
@@ -260,6 +288,7 @@ class Run:
                     c = self.ev(st[2], s[2], pos)
                     if c is UNK or isinstance(c, list):
                         raise Stop()
+                    self.last_truth[b] = (c != 0)
                     if c != 0:
                         nxt = int(st[3])
                     elif st[4] != "-":
@@ -376,7 +405,7 @@ def _flatten(v):
     return [v]
 
 
-def check_degrees(pre, ssa, p, base, direction, names, max_steps=400):
+def check_degrees(pre, ssa, p, base, direction, names, max_steps=400, idoms=None, audit=None):
     """Degree claims along the line base + t*direction (t = 0..4) in the space of
     the indeterminates `names`. Only positions reached on an identical control
     path for every t are compared. Returns (bad, exercised)."""
@@ -387,7 +416,22 @@ def check_degrees(pre, ssa, p, base, direction, names, max_steps=400):
         for n in names:
             inputs[n] = (base.get(n, 0) + t * direction.get(n, 0)) % p
         inputs["__elem__"] = (lambda name, idxs, t=t: (elem_hash(name, idxs, 1, p, zero_base) + t * elem_hash(name, idxs, 2, p, zero_base)) % p)
-        runs.append(Run(pre, ssa, p, inputs, max_steps).run())
+        rr = Run(pre, ssa, p, inputs, max_steps)
+        rr.idoms = idoms
+        runs.append(rr.run())
+    if audit is not None and idoms is not None:
+        # control-dependence audit: whenever two runs arrive at a join in the same context with the same truth
+        # values of all deciding conditions, they must arrive along the same edge
+        seen = {}
+        for r in runs:
+            for (blk, ctx, prev, truths) in r.arrivals:
+                audit["arrivals"] += 1
+                k2 = (blk, ctx, truths)
+                if k2 in seen and seen[k2] != prev:
+                    audit["bad"].append((blk, ctx, truths, seen[k2], prev))
+                seen.setdefault(k2, prev)
+                if any(t is not None for _, t in truths):
+                    audit["decided"] += 1
     if any(r.hdr_seq != runs[0].hdr_seq for r in runs):
         return [], 0, False
     diverged = any(r.path != runs[0].path for r in runs)
